@@ -121,7 +121,7 @@ def main():
             "guard": "verif",
             "enable": "go build -tags verif (bin/check rebuilds gofasta and the harness from /repo's working tree on every run)",
             "baseline_off_cmd": "cd /repo && go test -mod=mod -vet=off -count=1 -timeout 25m ./...",
-            "source_commits": ["551d63f", "7f1fc12", "174bb55", "e3ed60b", "052cdaf"],
+            "source_commits": ["551d63f", "7f1fc12", "174bb55", "e3ed60b", "052cdaf", "274573c"],
             "add_only": True,
         },
         "engines": [
